@@ -470,6 +470,10 @@ func (fd *Client) Query(input *dynamodb.QueryInput) (*dynamodb.QueryOutput, erro
 		return nil, err
 	}
 
+	if err := validateFilterExpression(input.FilterExpression); err != nil {
+		return nil, err
+	}
+
 	table, err := fd.getTable(aws.StringValue(input.TableName))
 	if err != nil {
 		return nil, err
@@ -533,6 +537,10 @@ func (fd *Client) Scan(input *dynamodb.ScanInput) (*dynamodb.ScanOutput, error) 
 	}
 
 	if err := validateProjectionExpression(input.ProjectionExpression); err != nil {
+		return nil, err
+	}
+
+	if err := validateFilterExpression(input.FilterExpression); err != nil {
 		return nil, err
 	}
 
@@ -782,10 +790,25 @@ func (fd *Client) getTable(tableName string) (*core.Table, error) {
 	return table, nil
 }
 
+// validateFilterExpression refuses a filter that is given but empty: "no filter" is a request
+// without the parameter
+func validateFilterExpression(expression *string) error {
+	if expression != nil && strings.TrimSpace(*expression) == "" {
+		return awserr.New("ValidationException", "Invalid FilterExpression: The expression can not be empty;", nil)
+	}
+
+	return nil
+}
+
 // validateProjectionExpression refuses a projection that is not a list of document paths
 func validateProjectionExpression(expression *string) error {
-	if strings.TrimSpace(aws.StringValue(expression)) == "" {
+	if expression == nil {
 		return nil
+	}
+
+	if strings.TrimSpace(*expression) == "" {
+		// given, but empty: that is not "no projection", the request is malformed
+		return awserr.New("ValidationException", "Invalid ProjectionExpression: The expression can not be empty;", nil)
 	}
 
 	if err := language.CheckProjectionExpression(aws.StringValue(expression)); err != nil {
